@@ -426,14 +426,25 @@ class InstanceValue(Object):
         self.cls = cls
 
     @cached_property
-    def _attrs(self):
+    def _assigned_attrs(self):
         # type: () -> Attributes
-        attrs = self.cls._attrs.copy()
+        # attributes assigned through self in the methods of the class and,
+        # below them, of its bases (an earlier base first)
+        attrs = {}  # type: Attributes
         for b in reversed(self.cls.bases):
             o = b.call(self.ctx)
             if o:
-                attrs.update(o._attrs)
+                attrs.update(getattr(o, '_assigned_attrs', {}))
         attrs.update(self.cls.scope.top.assigns(self.ctx).get(self, {}))
+        return attrs
+
+    @cached_property
+    def _attrs(self):
+        # type: () -> Attributes
+        # instance assignments shadow the class table; class attributes of a
+        # base never shadow those of the class itself
+        attrs = self.cls._attrs.copy()
+        attrs.update(self._assigned_attrs)
         return attrs
 
 
